@@ -1310,6 +1310,10 @@ func (s *server) SampleRowKeys(req *btpb.SampleRowKeysRequest, stream btpb.Bigta
 	var err error
 	var lastRow *btpb.Row
 	tbl.rows.Ascend(func(r *btpb.Row) bool {
+		if len(r.Families) == 0 {
+			// A stored row without cells (left behind by GC) is not a row; ReadRows skips it as well.
+			return true
+		}
 		if rand.Int31n(100) == 0 {
 			resp := &btpb.SampleRowKeysResponse{
 				RowKey:      r.Key,
